@@ -221,6 +221,77 @@ def run(ctx, rep) -> None:
         else:
             rep.ok("C10.R5", f"a duplicate {msg} is absorbed", f"decided by C04 (claim CAS on NOT_STARTED) and C02.R2; {n} effectful commits seen here", fi.file, fn.lineno)
 
+    # a duplicate StartStage for a RUNNING stage (the sweep pushes one for every RUNNING stage without live tasks) re-plans
+    # only when the plan commit cannot have happened: no task and no synthetic child of ANY status exists
+    sir = prog.func("stabilize.handlers.start_stage.handler", "StartStageHandler._start_if_ready")
+    spar = _parents(sir.node)
+    running_ifs = [n for n in ast.walk(sir.node) if isinstance(n, ast.If) and norm(n.test) == "stage.status == WorkflowStatus.RUNNING"]
+    zomb = None
+    for ri in running_ifs:
+        for n in ri.body:
+            if isinstance(n, ast.If) and n.orelse and isinstance(n.orelse[-1], ast.Return) and not any(isinstance(x, ast.Return) for x in n.body):
+                zomb = n
+    if zomb is None:
+        rep.fail("C10.R5", "zombie re-plan guard", "the branch that lets a RUNNING stage fall through to planning was not found in _start_if_ready", sir.file, sir.node.lineno, disc="zombie-shape")
+    else:
+        leaves = []
+
+        def _lv(e, neg=False):
+            if isinstance(e, ast.BoolOp) and isinstance(e.op, ast.And):
+                for v in e.values:
+                    _lv(v, neg)
+            elif isinstance(e, ast.UnaryOp) and isinstance(e.op, ast.Not):
+                _lv(e.operand, not neg)
+            else:
+                leaves.append((e, neg))
+        _lv(zomb.test)
+        defs = {}
+        for a_ in ast.walk(sir.node):
+            if isinstance(a_, ast.Assign) and len(a_.targets) == 1 and isinstance(a_.targets[0], ast.Name):
+                defs.setdefault(a_.targets[0].id, []).append(a_.value)
+
+        def existence_only(e, depth=0) -> bool:
+            if depth > 4:
+                return False
+            if isinstance(e, ast.BoolOp) and isinstance(e.op, ast.And):
+                return all(existence_only(v, depth + 1) for v in e.values)
+            if isinstance(e, ast.Compare) and len(e.ops) == 1:
+                l, r = e.left, e.comparators[0]
+                if isinstance(l, ast.Call) and norm(l.func) == "len" and isinstance(r, ast.Constant) and r.value == 0 and isinstance(e.ops[0], (ast.Gt, ast.NotEq)):
+                    return source_ok(l.args[0], depth)
+                if isinstance(e.ops[0], ast.IsNot) and norm(r) == "None":
+                    return source_ok(l, depth)
+                return False
+            if isinstance(e, ast.Call) and norm(e.func) == "bool" and len(e.args) == 1:
+                return source_ok(e.args[0], depth)
+            return source_ok(e, depth)
+
+        def source_ok(e, depth) -> bool:
+            t = norm(e)
+            if t == "stage.tasks" or t == "self.repository.get_synthetic_stages(stage.execution.id, stage.id)":
+                return True
+            if isinstance(e, ast.Name) and len(defs.get(e.id, [])) == 1:
+                d_ = defs[e.id][0]
+                return source_ok(d_, depth + 1) if not isinstance(d_, (ast.BoolOp, ast.Compare)) else existence_only(d_, depth + 1)
+            return False
+
+        bad = []
+        srcs = set()
+        for e, neg in leaves:
+            if not neg:
+                bad.append(f"`{norm(e)}` is not negated")
+                continue
+            d_ = defs.get(e.id, []) if isinstance(e, ast.Name) else [e]
+            if len(d_) != 1 or not existence_only(d_[0]):
+                bad.append(f"`{norm(e)}` = `{norm(d_[0])[:90] if d_ else '?'}` is not a pure existence test of the stage's tasks / synthetic children")
+            else:
+                srcs.add("tasks" if "tasks" in norm(d_[0]) else "synthetic")
+        if srcs != {"tasks", "synthetic"} and not bad:
+            bad.append(f"the guard looks at {sorted(srcs)} only")
+        rep.check(not bad, "C10.R5", "a duplicate StartStage re-plans a RUNNING stage only if no task and no synthetic child exists at all", "re-plan under `" + norm(zomb.test) + "` with existence-only operands" if not bad else
+                  "; ".join(bad) + ": a RUNNING stage whose planned children already completed is taken for a crashed planning, so the StartStage the sweep re-queues for it plans (and runs) its children a second time",
+                  sir.file, zomb.lineno, disc="zombie-evidence")
+
     # ---- R6 -------------------------------------------------------------------------------------
     from ..statuspred import status_set
     # reference: the condition under which the healthy run pushes StartTask(first task) for a stage with before-stages
